@@ -4,10 +4,11 @@ STD_TEXT = "Rust std string primitives (find, split_once, trim_matches, starts_w
 
 PROPS = {
     "C15": {
-        "jobs": ["c15"],
+        "jobs": ["c15", {"cmd": "c15e", "shards": 48}],
         "cli": False,
         "trusted_base": [
             "M1/M2 in-process correspondence through the `verif` re-exports of Directive/DirectiveType (bounded-exhaustive token lines)",
+            "M5-grouping: the line loop on top of detect_from/add_line (which line ends a directive, which starts a new one), every (directive line, candidate line, third line) combination over small alphabets through Txtpp::run vs the Lean model",
         ],
         "modelled": [STD_TEXT, "byte-offset slicing of add_line is modelled on chars + UTF-8 length (no-panic side: C18)"],
         "level_text": "Lean theorems: the executable models of detect_from/add_line accept exactly the lines the two sentences of the property describe (both directions, all lines, all directives), parses and continuation arguments are unique. The models are tied to the code by a bounded-exhaustive in-process comparison on every run; any divergence is a line on which the code departs from the grammar.",
